@@ -127,7 +127,7 @@ def run(ctx, name, kind, **kw):
             for P in t.pts:
                 oP = orders[P]
                 even = oP % 2 == 0
-                decl = rng.choice((oP, t.N))
+                decl = rng.choice((oP, t.N, 3 * oP, 8 * t.N))     # any declared order that annihilates the point
                 gen_obj = PointJacobi(cfp, P[0], P[1], 1, decl, generator=True)   # table built on first multiplication below
                 ks = list(range(-3, 2 * oP + 4))
                 # scalars "of any size": far outside [-ord, 2 ord] in both directions
@@ -220,6 +220,11 @@ def run(ctx, name, kind, **kw):
             ("prod.mul.naf", "rand_neg", build(cfp, Pm, "neg1", rng, order=n), Pm),
             ("prod.mul.naf", "rand_noorder_1", build(cfp, Pm, "j1", rng, order=None), Pm),
         ]
+        # a second and third generator object for the SAME point that declare a multiple of the order (it annihilates the point too):
+        # the table must fit the order each object declares, whatever was built before for that point
+        objs.append(("prod.mul.table", "G_declared_8n", PointJacobi(cfp, G[0], G[1], 1, 8 * n, generator=True), G))
+        objs.append(("prod.mul.table", "G_declared_64n_scaled", lib.mk_jac(cfp, G, rng.randrange(2, p), 64 * n, True), G))
+        ks += [14 * n + 5, 15 * n + 7, 127 * n + 1, -(13 * n + 2), 9 * n - 1]
         import ecdsa
         vk = ecdsa.VerifyingKey.from_public_point(Point(cfp, Pm[0], Pm[1], n), c)
         vk.precompute()
@@ -244,7 +249,11 @@ def run(ctx, name, kind, **kw):
         pairs += [(0, 5), (5, 0), (0, 0), (1, 1), (n - 1, n - 1), (n, 3), (3, n), (n + 1, 2 * n + 1), (-1, 1), (7, -7), (n - 1, 1), (1, n - 1)]
         for a, b in pairs[kw["si"]:: kw["sl"]]:
             for (an, A, PA) in (("G", c.generator, G), ("plain", build(cfp, Pm, "jzr", rng, order=n), Pm), ("noorder", build(cfp, Pm, "j1", rng, order=None), Pm)):
+                cfp2 = lib.CurveFp(int(cfp.p()), int(cfp.a()), int(cfp.b()), None)      # equal curve (same p, a, b as declared), separate object, no cofactor declared
                 for (bn, B, QB) in (("plain", build(cfp, Q, "j1", rng, order=n), Q), ("scaled", build(cfp, Q, "jzr", rng, order=n), Q),
+                                    ("other_curve_object", build(cfp2, Q, "jzr", rng, order=n), Q),
+                                    ("other_curve_object_table", PointJacobi(cfp2, Q[0], Q[1], 1, n, generator=True), Q),
+                                    ("other_curve_object_opposite", build(cfp2, cv.neg(PA), "j1", rng, order=n), cv.neg(PA)),
                                     ("legacy", Point(cfp, Q[0], Q[1], n), Q), ("same", build(cfp, PA, "jz2", rng, order=n), PA),
                                     ("opposite", build(cfp, cv.neg(PA), "jzr", rng, order=n), cv.neg(PA)), ("inf", INFINITY, None),
                                     ("table", vk.pubkey.point, Pm)):
